@@ -24,13 +24,14 @@ import (
 	"flag"
 	"fmt"
 	"go/ast"
-	"go/parser"
 	"go/printer"
 	"go/token"
 	"os"
 	"path/filepath"
 	"sort"
 	"strings"
+
+	"gtverif/internal/srcset"
 )
 
 func die(format string, a ...any) {
@@ -388,18 +389,28 @@ func main() {
 	if *out == "" {
 		die("-out required")
 	}
-	path := filepath.Join(*repo, "genum", "gen", "traits.go")
-	file, err := parser.ParseFile(fset, path, nil, 0)
+	// the whole package genum/gen as the compiler selects it (build constraints, every file): a function declared
+	// twice (in files with complementary constraints) or moved to a sibling file is found / refused here
+	pk, err := srcset.Load(filepath.Join(*repo, "genum", "gen"), "verif")
 	if err != nil {
 		die("%v", err)
 	}
+	fset = pk.Fset
+	if len(pk.Excluded) > 0 {
+		die("unsupported: files of genum/gen excluded by build constraints: %v", pk.Excluded)
+	}
 	fs := funcs{}
-	for _, d := range file.Decls {
-		if fd, ok := d.(*ast.FuncDecl); ok && fd.Body != nil {
-			if r := recvName(fd); r != "" {
-				fs[r+"."+fd.Name.Name] = fd
-			} else {
-				fs[fd.Name.Name] = fd
+	for _, file := range pk.Files {
+		for _, d := range file.Decls {
+			if fd, ok := d.(*ast.FuncDecl); ok && fd.Body != nil {
+				key := fd.Name.Name
+				if r := recvName(fd); r != "" {
+					key = r + "." + fd.Name.Name
+				}
+				if _, dup := fs[key]; dup && key != "init" {
+					die("unsupported: %s is declared more than once in genum/gen", key)
+				}
+				fs[key] = fd
 			}
 		}
 	}
